@@ -185,8 +185,77 @@ func (p *Path) addPC(c *smt.Term) {
 		p.pin(c.Name, 1)
 	case c.Kind == smt.KNot && c.A[0].Kind == smt.KVar:
 		p.pin(c.A[0].Name, 0)
-	case c.Kind == smt.KEq && c.A[0].Kind == smt.KVar && c.A[1].Kind == smt.KConst:
-		p.pin(c.A[0].Name, c.A[1].Val)
+	case c.Kind == smt.KEq && c.A[1].Kind == smt.KConst:
+		if name, v, ok := solveForVar(c.A[0], c.A[1].Val); ok {
+			p.pin(name, v)
+		}
+	}
+}
+
+// solveForVar inverts a chain of invertible unary operations: t == k  <=>  var == v.
+func solveForVar(t *smt.Term, k uint64) (string, uint64, bool) {
+	for {
+		switch t.Kind {
+		case smt.KVar:
+			return t.Name, k & maskW(t.W), true
+		case smt.KAdd:
+			if t.A[1].Kind == smt.KConst {
+				k = (k - t.A[1].Val) & maskW(t.W)
+				t = t.A[0]
+				continue
+			}
+			if t.A[0].Kind == smt.KConst {
+				k = (k - t.A[0].Val) & maskW(t.W)
+				t = t.A[1]
+				continue
+			}
+			return "", 0, false
+		case smt.KBXor:
+			if t.A[1].Kind == smt.KConst {
+				k = k ^ t.A[1].Val
+				t = t.A[0]
+				continue
+			}
+			return "", 0, false
+		case smt.KBNot:
+			k = ^k & maskW(t.W)
+			t = t.A[0]
+			continue
+		case smt.KNeg:
+			k = -k & maskW(t.W)
+			t = t.A[0]
+			continue
+		case smt.KZext:
+			in := t.A[0]
+			if k > maskW(in.W) {
+				return "", 0, false // equation is unsatisfiable; leave it to the solver
+			}
+			t = in
+			continue
+		case smt.KSext:
+			in := t.A[0]
+			lowk := k & maskW(in.W)
+			// must sign-extend back to k
+			sh := 64 - uint(in.W)
+			if uint64(int64(lowk<<sh)>>sh)&maskW(t.W) != k {
+				return "", 0, false
+			}
+			k = lowk
+			t = in
+			continue
+		case smt.KIte:
+			// ite(b, k1, k2) == k with k1 != k2 constants pins the bool
+			if t.A[0].Kind == smt.KVar && t.A[1].Kind == smt.KConst && t.A[2].Kind == smt.KConst && t.A[1].Val != t.A[2].Val {
+				if k == t.A[1].Val {
+					return t.A[0].Name, 1, true
+				}
+				if k == t.A[2].Val {
+					return t.A[0].Name, 0, true
+				}
+			}
+			return "", 0, false
+		}
+		return "", 0, false
 	}
 }
 
